@@ -4,6 +4,7 @@ import (
 	"fmt"
 	"os"
 	"sort"
+	"strings"
 	"time"
 
 	"github.com/formancehq/numscript/zzverif/checks"
@@ -44,20 +45,44 @@ func main() {
 	}
 }
 
-func runCase(pkg, fn string, args []string) {
+func runCase(checkID, match string, _ []string) {
 	t0 := time.Now()
-	files := []vm.HarnessFile{
-		{Dir: "internal/zzvrt", Name: "zzvrt.go", Src: "/verif/harness/zzvrt/zzvrt.go"},
-		{Dir: "internal/interpreter", Name: "zz_verif_c07.go", Src: "/verif/harness/interpreter/zz_verif_c07.go"},
+	chk := checks.Registry[checkID]
+	if chk == nil {
+		fmt.Println("unknown check")
+		os.Exit(2)
 	}
-	ld, err := vm.Load("/repo", files, []string{vm.RepoModule + "/internal/interpreter", vm.RepoModule + "/internal/zzvrt"})
+	tier := "quick"
+	if os.Getenv("VERIF_TIER") != "" {
+		tier = os.Getenv("VERIF_TIER")
+	}
+	var spec vm.CaseSpec
+	found := false
+	for _, c := range chk.Cases(tier) {
+		if strings.Contains(c.ID, match) {
+			spec = vm.CaseSpec{ID: c.ID, Pkg: checks.PkgPath(c.Pkg), Fn: c.Fn, Args: c.Args, MapOrder: c.MapOrder}
+			found = true
+			break
+		}
+	}
+	if !found {
+		fmt.Println("no case matches")
+		os.Exit(2)
+	}
+	fmt.Printf("case: %s\nargs: %q\n", spec.ID, spec.Args)
+	files := append([]vm.HarnessFile{checks.ZZVrtFile()}, chk.Files...)
+	patterns := []string{checks.PkgPath("internal/zzvrt")}
+	for _, d := range chk.LoadPkgs {
+		patterns = append(patterns, checks.PkgPath(d))
+	}
+	ld, err := vm.Load("/repo", files, patterns)
 	if err != nil {
 		fmt.Println("load:", err)
 		os.Exit(3)
 	}
 	fmt.Println("loaded in", time.Since(t0), ld.PkgErrs)
 	m := vm.New(ld.Prog, ld.Pkgs, vm.RepoModule)
-	s, err := smt.NewSolver("z3", 10000)
+	s, err := smt.NewSolver("z3", 20000)
 	if err != nil {
 		panic(err)
 	}
@@ -66,11 +91,17 @@ func runCase(pkg, fn string, args []string) {
 		s.Log = f
 	}
 	m.Solver = s
-	if err := m.InitRepo([]string{vm.RepoModule + "/internal/interpreter"}); err != nil {
+	var ip []string
+	for _, d := range chk.InitPkgs {
+		ip = append(ip, checks.PkgPath(d))
+	}
+	t1 := time.Now()
+	if err := m.InitRepo(ip); err != nil {
 		fmt.Println(err)
 		os.Exit(3)
 	}
-	res := m.RunCase(vm.CaseSpec{ID: "dbg", Pkg: vm.RepoModule + "/" + pkg, Fn: fn, Args: args})
+	fmt.Println("init in", time.Since(t1))
+	res := m.RunCase(spec)
 	fmt.Printf("paths=%d panics=%d aborted=%d decisions=%d steps=%d queries=%d solver=%s wall=%s\n",
 		res.Paths, res.PanicPaths, res.AbortedPaths, res.Decisions, res.Steps, res.Solver.Queries, res.Solver.Time, res.Wall)
 	fmt.Println("reached:", res.Reached, "asserted:", res.Asserted, "discharged:", res.Discharged, "unknown:", res.Unknowns, res.AssertUnk)
